@@ -5,13 +5,13 @@ CONSTANTS
   N = 3
   W = 2
   SyncSet = {1, 3}
-  QCap = 1
-  MaxFaults = 1
+  QCap = 2
+  MaxFaults = 0
   BugDedupLT = FALSE
   BugNoReplay = FALSE
   BugPopBeyondSync = FALSE
   BugGrowCopyUnwrapped = FALSE
-  BugReclaimAfterPut = FALSE
+  BugReclaimAfterPut = TRUE
   GenMode = FALSE
 VIEW view
 INVARIANT Inv
